@@ -217,9 +217,86 @@ def mode_kill(repo, max_ops=400):
     return {'problems': problems, 'kill_points_explored': explored}
 
 
+def mode_restore(repo, max_ops=300):
+    """C02/C15 across devices: every entry kind is trashed from the second
+    volume into the home trash (cross-device) and restored back (cross-device
+    again): the restored entry equals the original; then the restore is
+    killed before every mutating operation: the entry is complete in the
+    trash (payload AND info) or complete at its original location, and the
+    info file never disappears before the payload has arrived"""
+    problems = []
+    explored = 0
+    driver = os.path.join(HERE, 'faultrun.py')
+
+    def put(name):
+        return subprocess.run(
+            [PY, os.path.join(repo, 'trash-put'), '--home-fallback', '--', name],
+            cwd=R + '/ext', env=env(repo), capture_output=True, text=True, timeout=60)
+    for arg, name in (('f', 'f'), ('tree', 'tree'), ('lf', 'lf'), ('ld', 'ld'),
+                      ('dl', 'dl')):
+        # plain round trip
+        setup()
+        try:
+            src = os.path.join(R, 'ext', name)
+            before = snap(src)
+            p = put(arg)
+            if p.returncode != 0:
+                continue          # the put side is judged by mode 'move'
+            r = subprocess.run([PY, os.path.join(repo, 'trash-restore'), R + '/ext'],
+                               input='0\n', cwd=R + '/ext', env=env(repo),
+                               capture_output=True, text=True, timeout=60)
+            got = snap(src)
+            if got != before:
+                problems.append('cross-device put+restore of %s: restored %r, original %r'
+                                % (name, _short(got), _short(before)))
+            if os.path.lexists(os.path.join(TD, 'files', name)) or \
+                    os.path.lexists(os.path.join(TD, 'info', name + '.trashinfo')):
+                problems.append('cross-device restore of %s left the entry in the trash'
+                                % name)
+        finally:
+            teardown()
+        # kill points of the restore
+        k = 1
+        while k <= max_ops:
+            setup()
+            try:
+                src = os.path.join(R, 'ext', name)
+                before = strip_dir_mtime(snap(src))
+                if put(arg).returncode != 0:
+                    break
+                cfg = {'kill_at': k, 'log': R + '/home/faultlog.json', 'stdin': '0\n'}
+                p = subprocess.run(
+                    [PY, driver, os.path.join(repo, 'trash-restore'), json.dumps(cfg),
+                     R + '/ext'], cwd=R + '/ext', env=env(repo),
+                    capture_output=True, text=True, timeout=60)
+                explored += 1
+                try:
+                    ops = json.load(open(cfg['log']))
+                    last = ops[-1][1:] if ops else None
+                except Exception:
+                    last = None
+                label = 'cross-device restore of %s killed before op #%d %r' % (name, k, last)
+                payload = os.path.join(TD, 'files', name)
+                info = os.path.join(TD, 'info', name + '.trashinfo')
+                in_place = strip_dir_mtime(snap(src)) == before
+                in_trash = strip_dir_mtime(snap(payload)) == before
+                if not in_place and not in_trash:
+                    problems.append('%s: the entry is complete neither in the trash '
+                                    'nor at its original location' % label)
+                if not in_place and not os.path.exists(info):
+                    problems.append('%s: the info file is gone although the entry has '
+                                    'not arrived' % label)
+                if p.returncode != 99:
+                    break
+            finally:
+                teardown()
+            k += 1
+    return {'problems': problems, 'kill_points_explored': explored}
+
+
 def main():
     repo, mode = sys.argv[1], sys.argv[2]
-    out = mode_move(repo) if mode == 'move' else mode_kill(repo)
+    out = {'move': mode_move, 'kill': mode_kill, 'restore': mode_restore}[mode](repo)
     out['problems'] = out['problems'][:12]
     print('XDEV-RESULT ' + json.dumps(out))
 
